@@ -30,7 +30,7 @@ from hpstatic.terms import (sym, intern, show, subterms, calls_in, NONE, num, kw
                             FALSE, TRUE)
 from hpstatic.xrnorm import atom_rewrite
 from . import c01
-from .common import const_list, norm_cond
+from .common import const_list, norm_cond, beyond_guards
 
 MUTATION_TARGETS = {'holopy/core/io/io.py': ['pack_attrs', 'unpack_attrs', 'push', 'mean', 'std', 'load_average', 'save'], 'holopy/core/metadata.py': ['update_metadata', 'make_coords', 'data_grid', 'to_vector'], 'holopy/core/utils.py': ['updated']}
 
@@ -756,7 +756,7 @@ def wiring_load_average(check, prog, it, res, fd, loc):
     ok = len(cm) == 1
     if ok:
         b = bind_fn(prog, MD + 'copy_metadata', cm[0]['args'], cm[0]['kwargs'])
-        cs = [(t, p) for t, p in cm[0]['cond']]
+        cs = beyond_guards(cm[0]['cond'], res)
         ok = b.get('old') == refimg and bool(calls_in(b.get('data', NONE), 'mean')) and \
             not calls_in(b.get('data', NONE), 'std') and \
             b.get('do_coords') == FALSE and cs in ([(notnone, True)], [(isnone, False)])
@@ -764,7 +764,7 @@ def wiring_load_average(check, prog, it, res, fd, loc):
                   'with a reference image: copy_metadata(old <- refimg, data <- the '
                   'mean image, do_coords=False)', loc)
     um = calls(MD + 'update_metadata')
-    ok = len(um) == 1 and not um[0]['cond']
+    ok = len(um) == 1 and not beyond_guards(um[0]['cond'], res)
     detail = ''
     if ok:
         b = bind_fn(prog, MD + 'update_metadata', um[0]['args'], um[0]['kwargs'])
@@ -803,7 +803,9 @@ def wiring_load_average(check, prog, it, res, fd, loc):
 def tables_exact(check, prog):
     """the conditions under which each entry is written / read, with polarity"""
     def cs(e):
-        return [(t, p) for t, p in norm_cond(e['cond']) if t[0] != 'loop-iter']
+        return [(t, p) for t, p in beyond_guards(e['cond'], RES[0])
+                if t[0] != 'loop-iter']
+    RES = [None]
     # ---- unpack_attrs
     q = IO + 'unpack_attrs'
     fd = prog.func(q)
@@ -811,6 +813,7 @@ def tables_exact(check, prog):
     a = sym(fd.args.args[0].arg)
     it = Interp(prog, max_depth=1, opaque=['holopy.core.utils.dict_without'])
     res = it.analyze(q)
+    RES[0] = res
     empty = intern(('cmp', '==', ('call', 'len', (a,), ()), num(0)))
     early = [o for o in res.returns if o.value == a]
     ok = len(early) == 1 and norm_cond(early[0].cond) == [(empty, True)]
@@ -857,6 +860,7 @@ def tables_exact(check, prog):
     it = Interp(prog, max_depth=1, opaque=[MD + 'get_spacing',
                                            'holopy.core.utils.ensure_array'])
     res = it.analyze(q)
+    RES[0] = res
     st = [e for e in it.effects if e['kind'] == 'setitem']
     nm = [e for e in st if e['key'] == ('const', 'name')]
     nme = intern(('attr', a, 'name'))
